@@ -241,7 +241,12 @@ def table(ctx: Ctx, rule="R-C17-TABLE") -> None:
                 if impl is None or any("Protocol" in b for b in sub.base_exprs):
                     continue
                 got_p = [p_.arg for p_ in impl.params()]
-                ctx.check(got_p == want_p, rule, impl, f"{sub.name}.{nm}{tuple(got_p[1:])} keeps the declared parameter names", f"{want_p[1:]}",
+                a_ = impl.node.args
+                n_pos = len(a_.posonlyargs) + len(a_.args)
+                with_default = {x.arg for x in (a_.posonlyargs + a_.args)[n_pos - len(a_.defaults):]} | {x.arg for x, d_ in zip(a_.kwonlyargs, a_.kw_defaults) if d_ is not None}
+                extras = [x for x in got_p if x not in want_p]
+                # the declared names, in the declared order; additional parameters only if optional (nobody has to pass them)
+                ctx.check([x for x in got_p if x in want_p] == want_p and all(x in with_default for x in extras), rule, impl, f"{sub.name}.{nm}{tuple(got_p[1:])} keeps the declared parameter names", f"{want_p[1:]}",
                           f"{sub.name}.{nm} takes {got_p[1:]} but {base}.{nm} declares {want_p[1:]}: before_/after_ signals of this implementation carry other argument names than "
                           "subscribers are written for, and callers that pass the declared names by keyword fail", instance=f"{sub.name}.{nm}: parameter names")
     ctx.check(wrapped == union | {"actor_run"}, rule, "repid.middlewares.consts", "WRAPPED == union(__WRAPPED_METHODS__) + actor_run", "signal names cover exactly the wrapped operations",
@@ -331,6 +336,11 @@ def isolate(ctx: Ctx, rule="R-C17-ISOLATE") -> None:
     fparam = [p_.arg for p_ in f.params()][1]
     key_txt = f"{fparam}.__name__"  # the subscriber is filed under its own function name
     ap_txt = C.utext(f, ap[0].func) if len(ap) == 1 else ""
+    # `add_subscriber(fn, *, name=None)` with `if name is None: name = fn.__name__`: by default the key is still the function's own name
+    for sub_ in [x for x in ast.walk(ap[0].func) if isinstance(x, ast.Name)] if len(ap) == 1 else []:
+        dflt = C.injected_default(f, sub_)
+        if dflt is not sub_:
+            ap_txt = ap_txt.replace(f"[{sub_.id}]", f"[{unparse(dflt)}]").replace(f"({sub_.id},", f"({unparse(dflt)},")
     ctx.check(len(ap) == 1 and ap_txt in (f"self.subscribers[{key_txt}].append", f"self.subscribers.setdefault({key_txt}, []).append"), rule, f, "wrapper registered under the subscriber's name", "self.subscribers[name].append(wrapper)",
               "add_subscriber does not register the isolating wrapper", instance="wrapper registered")
     e = ctx.func(f"{MIDDLEWARE}.emit_signal")
